@@ -8,6 +8,7 @@
 #include <cstdio>
 #include <functional>
 #include <fstream>
+#include <memory>
 #include <sstream>
 #include <string>
 #include <vector>
@@ -41,9 +42,12 @@ template <class VC> static void report(FILE *out, long id, Cvt &cvt, const VC &r
     for (size_t j = 0; j < g_args.size(); ++j) if (g_args[j] == v) { pos = (int)j; break; }
     int nargs = pos >= 0 ? (int)g_args.size() + 1 : 0;
     if (pos >= 0) v = pos;          // alias: report the argument position
-    fprintf(out, "{\"e\":\"Res\",\"id\":%ld,\"kind\":\"%s\",\"var\":%d,\"lb\":%s,\"ub\":%s,\"int\":%s}\n", id,
+    // rv: the variable's own index (two requests to one converter answered with the same variable);
+    // a0lb / a0ub: the first argument's domain as it is after the call
+    fprintf(out, "{\"e\":\"Res\",\"id\":%ld,\"kind\":\"%s\",\"var\":%d,\"lb\":%s,\"ub\":%s,\"int\":%s,\"rv\":%d,\"a0lb\":%s,\"a0ub\":%s}\n", id,
             pos >= 0 ? "alias" : "var", v, verif::jnum(cvt.lb(r.get_var())).c_str(), verif::jnum(cvt.ub(r.get_var())).c_str(),
-            cvt.var_type(r.get_var()) == var::INTEGER ? "true" : "false");
+            cvt.var_type(r.get_var()) == var::INTEGER ? "true" : "false", r.get_var(),
+            g_args.empty() ? "0" : verif::jnum(cvt.lb(g_args[0])).c_str(), g_args.empty() ? "0" : verif::jnum(cvt.ub(g_args[0])).c_str());
   }
 }
 
@@ -105,23 +109,35 @@ int main(int argc, char **argv) {
   FILE *out = fopen(argv[2], "w");
   vtrace_install(out);
   std::string line;
+  // a type prefixed with '+' is asked of the PREVIOUS line's converter, over its argument variables
+  std::unique_ptr<TestSolver> envp;
+  std::unique_ptr<Flt> fltp;
   while (std::getline(in, line)) {
     if (line.empty()) continue;
     std::istringstream ss(line);
     long id; std::string type; int nargs;
     ss >> id >> type >> nargs;
+    bool cont = !type.empty() && type[0] == '+';
+    if (cont) type.erase(0, 1);
     char ctx[128]; snprintf(ctx, sizeof ctx, "case %ld %s", id, type.c_str()); vtrace_ctx(ctx);
     try {
-      TestSolver env;
-      Flt flt(env);
-      flt.InitOptions();
-      env.ParseOptionString("cvt:cmp:eps=6.103515625e-05", 0);
+      if (!cont || !fltp) {
+        fltp.reset(); envp.reset();
+        envp.reset(new TestSolver);
+        fltp.reset(new Flt(*envp));
+        fltp->InitOptions();
+        envp->ParseOptionString("cvt:cmp:eps=6.103515625e-05", 0);
+        g_args.clear();
+        cont = false;
+      }
+      Flt &flt = *fltp;
       Cvt &cvt = flt.GetFlatCvt();
       std::vector<int> args;
       for (int i = 0; i < nargs; ++i) {
         double lb = rd(ss), ub = rd(ss); int isint; ss >> isint;
-        args.push_back((int)cvt.AddVar(lb, ub, isint ? var::INTEGER : var::CONTINUOUS));
+        if (!cont) args.push_back((int)cvt.AddVar(lb, ub, isint ? var::INTEGER : var::CONTINUOUS));
       }
+      if (cont) args = g_args;
       g_args = args;
       bool aint = false;
       {
@@ -196,6 +212,7 @@ int main(int argc, char **argv) {
     }
     fflush(out);
   }
+  fltp.reset(); envp.reset();
   fclose(out);
   return 0;
 }
